@@ -99,10 +99,10 @@ def ensure_build(flavour="asan"):
             raise RuntimeError("harness build failed:\n" + out[-6000:])
         open(os.path.join(d, "OK"), "w").write(hsh)
         res["built"] = True
-        # keep the two most recent trees
+        # keep the five most recent trees
         trees = sorted((p for p in os.listdir(WORK) if p.startswith("repo-")),
                        key=lambda p: os.path.getmtime(os.path.join(WORK, p)), reverse=True)
-        for old in trees[2:]:
+        for old in trees[5:]:
             shutil.rmtree(os.path.join(WORK, old), ignore_errors=True)
         res["wall_s"] = time.time() - t0
         return res
